@@ -273,7 +273,8 @@ class Graph:
                         src.relabel = call_label
                         src.discharged = lock_poison(t) or (consumed_prefix(self.facts, p, t.get('fn_sp') or sp, 'advance') if (c or '').endswith('>::advance') else None) \
                             or (bounded_amount(self.facts, p, t.get('fn_sp') or sp) if (c or '').rsplit('::', 1)[-1] in ('reserve', 'with_capacity', 'resize', 'reserve_exact') else None) \
-                            or (guarded_split(self.facts, p, t.get('fn_sp') or sp) if (c or '').rsplit('::', 1)[-1] in ('split_at', 'split_at_mut') else None)
+                            or (guarded_split(self.facts, p, t.get('fn_sp') or sp) if (c or '').rsplit('::', 1)[-1] in ('split_at', 'split_at_mut') else None) \
+                            or (guarded_index(self.facts, p, t.get('fn_sp') or sp) if (c or '').endswith('core::ops::index::Index<I>>::index') else None)
                         out.append(src)
         res = []
         for src in out:
@@ -499,6 +500,9 @@ def known_comparisons(B, node):
         child = chain[i + 1]
         if anc['k'] == 'If' and role in ('then', 'els'):
             _cmp_facts(anc['cond'], role == 'then', out)
+        elif anc['k'] == 'Binary' and anc.get('op') in ('And', 'Or') and role == 'r':
+            # short circuit: the right operand of `&&` is evaluated only when the left one holds, that of `||` only when it does not
+            _cmp_facts(anc['l'], anc['op'] == 'And', out)
         elif anc['k'] == 'Block':
             for s in anc['stmts']:
                 e = s.get('e') if s['k'] in ('Expr', 'Semi') else s.get('init')
@@ -797,6 +801,38 @@ def clippy_agreement(ctx, rule, G, parent, regions, srcs, sites):
             'constructs that clippy reports inside the cone\'s bodies but the MIR engine did not list as panic sources (engine fault): %s' % missing[:6], nontrivial=False)
     return inside
 
+
+def guarded_index(facts, body_path, sp):
+    """D7: `x[k]` with a literal k on a vector / slice panics when k >= x.len(); discharged when a comparison that holds at the
+    indexing (an enclosing branch, an earlier early exit, or the left operand of the `&&` it stands in) gives x.len() > k, with x
+    not reassigned in the body."""
+    rec = hir_owner(facts, body_path)
+    if rec is None:
+        return None
+    B = _hirq.Body(facts, rec)
+    cands = [n for n in B.nodes if n['k'] == 'Index' and n.get('sp') and
+             (list(n['sp'][:5]) == list(sp[:5]) or (n['sp'][0] == sp[0] and n['sp'][3:5] == sp[3:5]))]
+    if len(cands) != 1:
+        return None
+    ix = cands[0]
+    x = ix['e']
+    k = _hirq.const_eval(facts, ix['idx'])
+    if not isinstance(k, int) or isinstance(k, bool) or k < 0 or _mutated(B, x):
+        return None
+    flip = {'Lt': 'Gt', 'Le': 'Ge', 'Gt': 'Lt', 'Ge': 'Le', 'Eq': 'Eq', 'Ne': 'Ne'}
+    def is_len_of_x(e):
+        e = _hirq.peel_refs(e)
+        return e['k'] == 'MethodCall' and e['name'] == 'len' and not e['args'] and expr_eq(facts, e['recv'], x)
+    for a, o, b in known_comparisons(B, ix):
+        for (p, oo, q) in ((a, o, b), (b, flip[o], a)):
+            if not is_len_of_x(p):
+                continue
+            m = _hirq.const_eval(facts, q)
+            if not isinstance(m, int) or isinstance(m, bool):
+                continue
+            if (oo == 'Eq' and m > k) or (oo == 'Gt' and m >= k) or (oo == 'Ge' and m > k) or (oo == 'Ne' and m == 0 and k == 0):
+                return 'guarded: a comparison that holds at the indexing gives len > %d' % k
+    return None
 
 def guarded_split(facts, body_path, sp):
     """D6: `x.split_at(n)` panics when n > x.len(); discharged when a comparison that holds at the call gives n <= x.len()
